@@ -169,10 +169,57 @@ def _c02_case(args):
     return dict(ok=True)
 
 
+# one-line forms: the import statement is NOT the first token of its physical line (seed C02q: a textual pre-filter for lines starting with import / from)
+INLINE_WRAPPERS = ["if True: {S}", "X = 1; {S}", "class K: {S}", "def f(): {S}", "\x0c{S}", "for _ in (1,): {S}", "with open(__file__) as _f: {S}", "if False: pass\nelse: {S}",
+                   "try: {S}\nexcept ImportError: pass", "try: pass\nfinally: {S}"]
+
+
+def _c02_inline_case(args):
+    wrapper, stmt, expected = args
+    importer = "proj.pkg.inner.user"
+    files = dict(C02_FILES)
+    files["pkg/inner/user.py"] = wrapper.replace("{S}", stmt) + "\n"
+    try:
+        ast.parse(files["pkg/inner/user.py"])
+    except SyntaxError:
+        return dict(skip=True)
+    with temp_project(files, ROOT) as root:
+        got = _internal_imports(scan(root), importer)
+    want = {e for e in expected if e not in set(parents(importer))}
+    if got != want:
+        return dict(violation=dict(case="import-edges-inline", detail=f"file consisting of the one line {wrapper.replace('{S}', stmt)!r}: edges from {importer} to {sorted(got)}, the statement names {sorted(want)}",
+                                   input=dict(kind="c02-inline", wrapper=wrapper, stmt=stmt, expected=expected)))
+    return dict(ok=True)
+
+
+def _c02_history_case(seed):
+    """Several project trees with the SAME root name scanned one after the other in ONE process, module_path one level below root_path (absolute imports are then
+    written relative to module_path's parent and need the root prefix): every scan's edges are those of ITS OWN tree (seed C02p: a process-wide memo of adjusted names)."""
+    rng = random.Random(seed)
+    out = []
+    cands = ["util", "core", "helpers", "extra"]
+    history = []
+    for step in range(3):
+        present = set(rng.sample(cands, rng.randint(1, 3)))
+        files = {"__init__.py": "", "app/__init__.py": "", "app/user.py": "".join(f"import app.{c}\n" for c in cands)}
+        for c in present:
+            files[f"app/{c}.py"] = ""
+        with temp_project(files, ROOT) as root:
+            arch = scan(root, os.path.join(root, "app"))
+            got = {b for b in _internal_imports(arch, "proj.app.user")}
+        want = {f"proj.app.{c}" for c in present}
+        history.append(sorted(present))
+        if got != want:
+            out.append(dict(case="import-edges-history", detail=f"scan {step + 1} of trees {history} (same root name, module_path=proj/app, file app/user.py imports app.<each candidate>): "
+                            f"edges from proj.app.user to {sorted(got)}, this tree's modules make it {sorted(want)}", input=dict(kind="c02-history", seed=seed)))
+            break
+    return out
+
+
 def bounded_import_edges(tier, seed):
     b = Bounded("C02.import-statements-vs-edges", "every statement-list position of the running interpreter's grammar (read from the ast node classes; fails closed on an unknown one), nested to depth "
                 "1 (all) and depth 2 (all pairs in thorough, 60 random pairs in quick) x 33 import forms (plain, aliased, multi-name, from-name, from-submodule, mixed module/object names, star, relative levels 1-3, namespace packages), in a "
-                "regular file and inside an __init__ file, in a fixed 14-file project")
+                "regular file and inside an __init__ file, in a fixed 14-file project; 10 one-line compound-statement wrappers x the import forms (90 sampled in quick); 40/2000 histories of three same-named trees scanned in one process with module_path below root_path")
     pos = grammar_positions()
     unknown = sorted(p for p in pos if p not in TEMPLATES)
     if ("Try", "handlers") in unknown:
@@ -205,10 +252,29 @@ def bounded_import_edges(tier, seed):
         if "violation" in r:
             v = r["violation"]
             b.violation(v["case"], v["detail"], v["input"])
+    inline_jobs = [(w, st_, ex_) for w in INLINE_WRAPPERS for st_, ex_ in IMPORT_FORMS if not st_.endswith("*") or w.startswith(("if", "X", "\x0c", "for", "with", "try"))]
+    if tier == "quick":
+        inline_jobs = rng.sample(inline_jobs, 90)
+    for j, r in zip(inline_jobs, pmap(_c02_inline_case, inline_jobs)):
+        if r.get("skip"):
+            continue
+        b.case()
+        if "violation" in r:
+            b.violation(r["violation"]["case"], r["violation"]["detail"], r["violation"]["input"])
+    for res in pmap(_c02_history_case, [seed * 977 + i for i in range(40 if tier == "quick" else 2000)]):
+        b.case()
+        for v in res:
+            b.violation(v["case"], v["detail"], v["input"])
     return b.result()
 
 
 def rerun_c02(inp):
+    if inp.get("kind") == "c02-inline":
+        r = _c02_inline_case((inp["wrapper"], inp["stmt"], inp["expected"]))
+        return ("violation" not in r), (r["violation"]["detail"] if "violation" in r else "edges equal the importees the statement names")
+    if inp.get("kind") == "c02-history":
+        res = _c02_history_case(inp["seed"])
+        return (not res), ("; ".join(v["detail"] for v in res) or "every scan's edges are those of its own tree")
     r = _c02_case(([tuple(p) for p in inp["path"]], inp["stmt"], inp["expected"], inp["in_init"]))
     if "violation" in r:
         return False, r["violation"]["detail"]
